@@ -86,13 +86,31 @@ def extract_chain(repo: Repo, m: ModuleInfo, node: ast.If) -> list[Arm]:
     return arms
 
 
+def _expand_tests(func: ast.AST, node: ast.If) -> ast.If:
+    """Copy of an if/elif chain whose tests have the function's pure single-assignment locals spelled out, so that
+    `t = type(x)` ; `if t is A: ... elif t is B: ...` reads as a dispatch on type(x)."""
+    import copy
+
+    from . import astutil as A
+
+    new = copy.copy(node)
+    try:
+        new.test = ast.parse(A.expanded(func, node.test), mode="eval").body
+        ast.copy_location(new.test, node.test)
+    except SyntaxError:
+        pass
+    if len(node.orelse) == 1 and isinstance(node.orelse[0], ast.If):
+        new.orelse = [_expand_tests(func, node.orelse[0])]
+    return new
+
+
 def find_chains(repo: Repo, m: ModuleInfo, func: ast.AST, min_arms: int = 2) -> list[list[Arm]]:
-    """All maximal if/elif chains in `func` that dispatch on a type / None test."""
+    """All maximal if/elif chains in `func` that dispatch on a type / None test (tests read with local aliases expanded)."""
     out = []
     inner: set[int] = set()
     for n in ast.walk(func):
         if isinstance(n, ast.If) and id(n) not in inner:
-            chain = extract_chain(repo, m, n)
+            chain = extract_chain(repo, m, _expand_tests(func, n))
             cur = n
             while len(cur.orelse) == 1 and isinstance(cur.orelse[0], ast.If):
                 cur = cur.orelse[0]
